@@ -75,6 +75,13 @@ def main():
                 if args.v or not ok:
                     print('\n'.join('      ' + l for l in out.splitlines() if 'violated' in l or 'VIOLATION' in l or 'HARNESS' in l)[:3000])
                 bad += 0 if ok else 1
+                qc = meta.get('our_quick_check', {})
+                if ok and not qc.get('caught', True):
+                    # missed when it was ingested, caught by the strengthened check: keep the first record, store the new one
+                    meta['first_quick_check'] = qc
+                    meta['our_quick_check'] = {'exit': 1, 'caught': True, 'by': by.strip() or pid, 'lines': [
+                        l.replace(tree, '<patched export>') for l in out.splitlines() if 'violated' in l or 'VIOLATION' in l][:6]}
+                    json.dump(meta, open(meta_path, 'w'), indent=1)
             finally:
                 shutil.rmtree(tree, ignore_errors=True)
         print('%d seeded changes, %d missed' % (total, bad))
